@@ -111,12 +111,27 @@ class StatementMapper(ast.NodeVisitor):
         else:
             raise NotImplementedError()
 
+    @staticmethod
+    def _get_lineno_for(aug_type: AugmentationType, node: ast.AST) -> int:
+        # the column is measured from the end of a child (the object before the dot, the left operand):
+        # the token sits on the line where that child ends, which need not be the line the node starts on
+        child: Optional[ast.AST] = None
+        if aug_type == AugmentationType.binop and isinstance(node, ast.BinOp):
+            child = node.left
+        elif aug_type in (
+            AugmentationType.dot,
+            AugmentationType.suffix,
+        ) and isinstance(node, ast.Attribute):
+            child = node.value
+        lineno = getattr(child, "end_lineno", None)
+        return node.lineno if lineno is None else lineno  # type: ignore[attr-defined]
+
     def _handle_augmentations(self, nc: ast.AST) -> None:
         for spec, mod_positions in self.augmented_positions_by_spec.items():
             col_offset = self._get_col_offset_for(spec.aug_type, nc)
             if col_offset is None:
                 continue
-            if (nc.lineno, col_offset) in mod_positions:  # type: ignore[attr-defined]
+            if (self._get_lineno_for(spec.aug_type, nc), col_offset) in mod_positions:
                 for tracer in self._tracers:
                     if spec in tracer.syntax_augmentation_specs:
                         tracer.augmented_node_ids_by_spec[spec].add(id(nc))
